@@ -29,7 +29,7 @@ import (
 
 func init() {
 	extraGens = append(extraGens, func(o *out, pkgs map[string]map[string]*ast.File, all []funcInfo, repo string) {
-		genBindApi(o, pkgs)
+		genBindApi(o, pkgs, all)
 	})
 }
 
@@ -326,7 +326,47 @@ func c01VariadicParam(fd *ast.FuncDecl) string {
 	return ""
 }
 
-func genBindApi(o *out, pkgs map[string]map[string]*ast.File) {
+// c01TemplateSites: every composite literal clause.Expr{…} / clause.NamedExpr{…} (also Expr{…} inside package clause is
+// NOT included: those are the builders themselves) in the packages gorm and gorm/callbacks, with the source text of
+// its SQL and Vars fields ("" = field absent)
+func c01TemplateSites(all []funcInfo) [][4]string {
+	var out [][4]string
+	for _, fi := range all {
+		if fi.decl.Body == nil || strings.HasSuffix(fi.file, "_test.go") {
+			continue
+		}
+		if strings.Contains(fi.file, "/") && !strings.HasPrefix(fi.file, "callbacks/") {
+			continue
+		}
+		ast.Inspect(fi.decl.Body, func(x ast.Node) bool {
+			cl, ok := x.(*ast.CompositeLit)
+			if !ok {
+				return true
+			}
+			t := src(cl.Type)
+			if t != "clause.Expr" && t != "clause.NamedExpr" {
+				return true
+			}
+			sqlSrc, varsSrc := "", ""
+			for _, el := range cl.Elts {
+				if kv, ok := el.(*ast.KeyValueExpr); ok {
+					switch src(kv.Key) {
+					case "SQL":
+						sqlSrc = src(kv.Value)
+					case "Vars":
+						varsSrc = src(kv.Value)
+					}
+				}
+			}
+			out = append(out, [4]string{fi.file + ":" + fi.name, t, sqlSrc, varsSrc})
+			return true
+		})
+	}
+	sort.SliceStable(out, func(i, j int) bool { return out[i][0] < out[j][0] })
+	return out
+}
+
+func genBindApi(o *out, pkgs map[string]map[string]*ast.File, all []funcInfo) {
 	var paths []c01ApiPath
 	type fnRow struct{ fn, file, param string }
 	var fns []fnRow
@@ -388,6 +428,18 @@ func genBindApi(o *out, pkgs map[string]map[string]*ast.File) {
 		}
 		fmt.Fprintf(&b, "  { fn := %s, file := %s, pos := %s, neg := %s, uses := %s, rejects := %v, ending := %s }%s\n",
 			lstr(p.fn), lstr(p.file), lstrs(p.st.pos), lstrs(p.st.neg), lstrs(p.st.uses), p.st.rejects, lstr(p.ending), sep)
+	}
+	b.WriteString("]\n\n")
+	b.WriteString("/-- a composite literal `clause.Expr{SQL: …, Vars: …}` / `clause.NamedExpr{…}` in gorm / gorm/callbacks: source text of\n    the two fields (\"\" = absent) -/\n")
+	b.WriteString("structure TemplateSite where\n  site : String\n  kind : String\n  sql : String\n  vars : String\nderiving Repr, DecidableEq\n\n")
+	b.WriteString("def templateSites : List TemplateSite := [\n")
+	sites := c01TemplateSites(all)
+	for i, t := range sites {
+		sep := ","
+		if i == len(sites)-1 {
+			sep = ""
+		}
+		fmt.Fprintf(&b, "  { site := %s, kind := %s, sql := %s, vars := %s }%s\n", lstr(t[0]), lstr(t[1]), lstr(t[2]), lstr(t[3]), sep)
 	}
 	b.WriteString("]\n")
 	o.write("BindApi", b.String())
